@@ -38,7 +38,7 @@ func init() {
 		Binary:      "race",
 		Aux:         c10Aux,
 		Driver:      c10Driver,
-		MinDistinct: func(tier string) int { return pick(tier, 150, 400) },
+		MinDistinct: func(tier string) int { return pick(tier, 150, 300) },
 	})
 }
 
